@@ -32,7 +32,7 @@ def table(prob, point):
         if not abs_in.startswith(point + "."):
             continue
         rel = abs_in[len(point) + 1 :].split(".")
-        groups = [i for i, x in enumerate(rel[:-1]) if x.endswith("_perf")]
+        groups = [i for i, x in enumerate(rel[:-1]) if x.endswith("_perf") or x == "struct_states"]
         if not groups:
             continue
         G = point + "." + ".".join(rel[: groups[0] + 1])
